@@ -103,7 +103,7 @@ def model(spec, order):
         if exp is not None:
             if exp <= 0:
                 return False
-            if spec['stop_time'] and exp < DOWNTIME:
+            if spec['stop_time'] is True and exp < DOWNTIME:
                 return False
         return True
 
@@ -165,7 +165,9 @@ def model(spec, order):
         ia_ok = False
         if ia:
             ends.append(min(ia['tau'], ia['timeout']))
-            ia_ok = ia['tau'] < ia['timeout']
+            # (a failed / overlong coroutine: the default value - any object, also a false one -
+            # is used, when there is one)
+            ia_ok = (ia['tau'] < ia['timeout'] and not ia.get('fail')) or 'initdef' in ia
         completions = []
         for n in tasks:
             kind, tau = B[n]['ainit']['script']
@@ -217,11 +219,18 @@ def run_order(spec, order, ctx):
 
                 def func(vp=vp, cnt=cnt):
                     return edzed.UNDEF if next(cnt) < vp['undef'] else 'value'
+                if vp.get('async_func'):
+                    # the acquisition function may be a coroutine function as well
+                    syncfunc = func
+
+                    async def func():      # pylint: disable=function-redefined
+                        return syncfunc()
                 kw = {'initdef': 'vp-default'} if vp['initdef'] else {}
                 if vp.get('to_oa'):
                     # every polled value goes to an output block, the first one at the very
                     # first step of the polling task
-                    kw['on_output'] = edzed.Event('oa', 'put')
+                    # ... directly or through an explicitly created Repeat block
+                    kw['on_output'] = edzed.Event('rp' if vp['to_oa'] == 'rp' else 'oa', 'put')
                 objs['#vp'] = edzed.ValuePoll('vp', func=func, interval=vp['interval'],
                                               init_timeout=vp['timeout'], **kw)
                 continue
@@ -231,14 +240,20 @@ def run_order(spec, order, ctx):
                 objs['#oa'] = edzed.OutputAsync('oa', coro=oacoro, mode='wait', on_error=None,
                                                 stop_timeout=2)
                 continue
+            if name == '#rp':
+                objs['#rp'] = edzed.Repeat('rp', dest='oa', etype='put', interval=50.0, count=2)
+                continue
             if name == '#ia':
                 ia = spec['lib']['initasync']
 
                 async def icoro(ia=ia):
                     await asyncio.sleep(ia['tau'])
+                    if ia.get('fail'):
+                        raise RuntimeError('vf: no value')
                     return 'ia-result'
+                iakw = {'initdef': ia['initdef']} if 'initdef' in ia else {}
                 objs['#ia'] = edzed.InitAsync('ia', init_coro=[icoro], init_timeout=ia['timeout'],
-                                              on_output=edzed.Event('fed', 'put'))
+                                              on_output=edzed.Event('fed', 'put'), **iakw)
                 continue
             if name == '#fed':
                 objs['#fed'] = edzed.Input('fed')
@@ -313,7 +328,14 @@ def run_order(spec, order, ctx):
             if p and p['stored']:
                 storage[str(objs[b['name']])] = p['state']
         if spec['stop_time']:
-            storage['edzed-stop-time'] = holder['clock'].peek_time() - DOWNTIME
+            ts = holder['clock'].peek_time() - DOWNTIME
+            if spec['stop_time'] is not True:
+                # a timestamp that is not a float (e.g. a back-end that stringifies values) is
+                # documented as unusable: a warning, the expiration is then not checked
+                ctx.count('unusable_stop_timestamps')
+                ts = {'str': str(ts), 'int': int(ts), 'bytes': str(ts).encode(),
+                      'none': None, 'list': [ts]}[spec['stop_time']]
+            storage['edzed-stop-time'] = ts
         storage['foreign-key'] = 1
         if spec.get('read_fail'):
             badkey = str(objs[spec['read_fail']])
@@ -472,9 +494,13 @@ def judge_order(spec, order, hist, res, ctx):
             if res['outs'].get('#vp') != exp:
                 raise core.Violation('initialised-from-wrong-source',
                                      f"{where}: ValuePoll output {res['outs'].get('#vp')!r}, expected {exp!r}")
-        if lib.get('initasync') and res['outs'].get('#fed') != 'ia-result':
-            raise core.Violation('initialised-from-wrong-source',
-                                 f"{where}: Input fed by InitAsync = {res['outs'].get('#fed')!r}")
+        if lib.get('initasync'):
+            ia = lib['initasync']
+            exp = 'ia-result' if ia['tau'] < ia['timeout'] and not ia.get('fail') else ia['initdef']
+            got = res['outs'].get('#fed')
+            if got != exp or type(got) is not type(exp):
+                raise core.Violation('initialised-from-wrong-source',
+                                     f"{where}: Input fed by InitAsync = {got!r}, expected {exp!r}")
         ctx.count('successful_starts')
     else:
         ctx.count('failed_starts')
@@ -645,6 +671,8 @@ def random_spec(rng, quick):
                     b['ainit'] = {'script': ['ok', 0.75], 'timeout': 6.0}
                     b.setdefault('emit_ping', {}).setdefault('init_async', []).append(dst)
     spec = {'blocks': blocks, 'stop_time': rng.random() < 0.8, 'lib': {}}
+    if rng.random() < 0.12:
+        spec['stop_time'] = rng.choice(['str', 'int', 'bytes', 'none', 'list'])
     if rng.random() < 0.3:
         spec['konst'] = True
     stored = [b['name'] for b in blocks if b.get('persist') and b['persist']['stored']]
@@ -661,10 +689,19 @@ def random_spec(rng, quick):
         if rng.random() < 0.5:
             spec['lib']['valuepoll']['to_oa'] = True
             extra.append('#oa')
+            if rng.random() < 0.5:
+                spec['lib']['valuepoll']['to_oa'] = 'rp'
+                extra.append('#rp')
+        if rng.random() < 0.5:
+            spec['lib']['valuepoll']['async_func'] = True
     elif r < 0.3:
         tau = rng.choice([0.3, 1.2, 60.0])
         spec['lib']['initasync'] = {'tau': tau, 'timeout': rng.choice([tau + 0.5, 5.0]) if tau < 60
                                     else 0.75}
+        if rng.random() < 0.5:
+            spec['lib']['initasync']['initdef'] = rng.choice([0, '', False, 'ia-default', 0.0])
+        if tau < 60 and rng.random() < 0.4:
+            spec['lib']['initasync']['fail'] = True
         extra += ['#ia', '#fed']
     r = rng.random()
     if r < 0.25:
